@@ -239,7 +239,8 @@ fn run_scenario(sc: &Value) {
             let r = pool.try_timed_schedule_task(Duration::from_millis(20));
             rec(json!({"ev": "pass_e", "ok": r.is_ok()}));
             probe(pool);
-            if pool.get_running_size() == 0 && pool.is_empty() {
+            // (a pool keeps `min` workers alive)
+            if pool.get_running_size() <= min && pool.is_empty() {
                 quiet += 1;
             } else {
                 quiet = 0;
